@@ -337,7 +337,7 @@ fn expect_refusal(c: &RefusalCase) -> Option<&'static str> {
     match c.hosts_defect {
         0 => None,
         1 => Some("duplicate TLS host"),
-        3 | 4 => Some("unloadable TLS host"),
+        3 | 4 | 6 | 7 | 8 | 9 => Some("unloadable TLS host"),
         _ => Some("no main host"),
     }
 }
@@ -348,14 +348,14 @@ impl Suite for RefusalSuite {
         "startup-refusals"
     }
     fn rule(&self) -> String {
-        "cross product of {credentials present / absent} x {loopback / non-loopback / wildcard listen address, IPv4 and IPv6} x every subset of listen protocols x TLS hosts {valid, a host name duplicated inside or across any pair of the four host classes, missing certificate file, key file that is not a key, no main host} x reverse proxy {absent, valid, port 0, empty mask, mask without slash}, loaded from TOML exactly as the endpoint does and handed to Core::new; the start must be refused iff the reference predicate says so (the statement's list); non-trivial = exactly one refusal reason present".into()
+        "cross product of {credentials present / absent} x {loopback / non-loopback / wildcard listen address, IPv4 and IPv6} x every subset of listen protocols x TLS hosts {valid, a host name duplicated inside or across any pair of the four host classes, missing certificate file, key file that is not a key, certificate chain file without a single certificate, certificate chain damaged at the PEM level (a block cut off, characters outside base64, a mangled BEGIN line - each behind a good certificate), no main host} x reverse proxy {absent, valid, port 0, empty mask, mask without slash}, loaded from TOML exactly as the endpoint does and handed to Core::new; the start must be refused iff the reference predicate says so (the statement's list); non-trivial = exactly one refusal reason present".into()
     }
     fn strategy(&self, _: Tier) -> BoxedStrategy<RefusalCase> {
         (
             any::<bool>(),
             prop::sample::select(vec!["127.0.0.1:8443", "0.0.0.0:443", "192.0.2.2:443", "[::1]:8443", "[::]:443", "127.8.8.8:1", "[2001:db8::1]:443"]),
             any::<[bool; 3]>(),
-            prop_oneof![5 => Just(0u8), 4 => Just(1u8), 1 => Just(3u8), 1 => Just(4u8), 1 => Just(5u8)],
+            prop_oneof![5 => Just(0u8), 4 => Just(1u8), 1 => Just(3u8), 1 => Just(4u8), 1 => Just(5u8), 1 => Just(6u8), 1 => Just(7u8), 1 => Just(8u8), 1 => Just(9u8)],
             prop_oneof![4 => Just(0u8), 2 => Just(1u8), 1 => Just(2u8), 1 => Just(3u8), 1 => Just(4u8)],
             (0u8..4, 0u8..4),
         )
@@ -427,6 +427,7 @@ impl Suite for RefusalSuite {
             format!("[[{}]]\nhostname = \"{}\"\ncert_chain_path = \"{}\"\nprivate_key_path = \"{}\"\n\n", table, name, cert, key)
         };
         let good = cert_path(0);
+        let damaged_chain;
         const TABLES: [&str; 4] = ["main_hosts", "ping_hosts", "speedtest_hosts", "reverse_proxy_hosts"];
         let all_classes = host("main_hosts", "a.x", &good, &good)
             + &host("ping_hosts", "ping.x", &good, &good)
@@ -442,6 +443,29 @@ impl Suite for RefusalSuite {
             }
             3 => host("main_hosts", "a.x", "/nonexistent/cert.pem", &good),
             4 => host("main_hosts", "a.x", &good, &garbage.path()),
+            // a certificate chain file without a single certificate in it
+            9 => host("main_hosts", "a.x", &garbage.path(), &good),
+            // a certificate chain that is damaged at the PEM level: the good certificate followed by
+            // a block that is cut off, a block with characters outside base64, a mangled BEGIN line
+            6 | 7 | 8 => {
+                let pem = std::fs::read_to_string(&good).unwrap_or_default();
+                let first_cert: String = {
+                    let end = pem.find("-----END CERTIFICATE-----").map(|i| i + "-----END CERTIFICATE-----".len()).unwrap_or(pem.len());
+                    pem[..end].to_string() + "\n"
+                };
+                let body_start = first_cert.find('\n').map(|i| i + 1).unwrap_or(0);
+                let damaged = match c.hosts_defect {
+                    6 => format!("{}{}", first_cert, &first_cert[..first_cert.len() * 2 / 3]),
+                    7 => {
+                        let mut second = first_cert.clone();
+                        second.insert_str(body_start + 20, "!!!! not base64 !!!!");
+                        format!("{}{}", first_cert, second)
+                    }
+                    _ => format!("{}{}", first_cert, first_cert.replacen("-----BEGIN CERTIFICATE-----", "-----BEGIN CERTIFICATE----", 1)),
+                };
+                damaged_chain = Some(TempFile::new("chain", &damaged));
+                host("main_hosts", "a.x", &damaged_chain.as_ref().unwrap().path(), &good)
+            }
             _ => "main_hosts = []\n".to_string() + &host("ping_hosts", "ping.x", &good, &good),
         };
         let started = engine::no_panic("startup:panic", || -> Result<(), String> {
